@@ -91,7 +91,9 @@ MSeq(s, cs, k, P) ==
 
 MOne(s, c, p) ==
   CASE c.k = "cls"  -> {q \in (p + c.min)..(p + c.max) :
-                          q <= Len(s) + 1 /\ \A i \in p..(q - 1) : InClass(c.cls, s[i])}
+                          /\ q <= Len(s) + 1 /\ \A i \in p..(q - 1) : InClass(c.cls, s[i])
+                          \* a reference that a "//" separator may follow contains no "//" itself
+                          /\ (c.ch = "nodbl" => \A i \in p..(q - 2) : ~(s[i] = "/" /\ s[i + 1] = "/"))}
     [] c.k = "lit"  -> IF p <= Len(s) /\ s[p] = c.ch THEN {p + 1} ELSE {}
     [] c.k = "nl"   -> IF p <= Len(s) /\ s[p] = "\n" THEN {p + 1} ELSE {}
     [] c.k = "opt"  -> {p} \cup MSeq(s, c.body, 1, {p})
@@ -261,6 +263,7 @@ FA(tag, fmt) == [tag |-> tag, fmt |-> fmt, slash |-> FALSE, amt |-> TRUE]
 Codes13C == {<<"S", "N", "D", "T", "I", "M", "E">>, <<"C", "L", "S", "T", "I", "M", "E">>, <<"R", "N", "C", "T", "I", "M", "E">>,
              <<"R", "E", "J", "T", "I", "M", "E">>, <<"C", "U", "T", "T", "I", "M", "E">>}
 Codes23B == {<<"C", "R", "E", "D">>, <<"C", "R", "T", "S">>, <<"S", "P", "A", "Y">>, <<"S", "P", "R", "I">>, <<"S", "S", "T", "D">>}
+Codes61DC == {<<"C">>, <<"D">>, <<"R", "C">>, <<"R", "D">>}
 Codes71A == {<<"B", "E", "N">>, <<"O", "U", "R">>, <<"S", "H", "A">>}
 
 Formats == {
@@ -310,6 +313,10 @@ Formats == {
   F("59A", <<Acct, Sem("BIC", 11)>>),
   F("59F", <<Acct, Numbered>>),
   FA("60F", Balance), FA("60M", Balance), FA("62F", Balance), FA("62M", Balance), FA("64", Balance), FA("65", Balance),
+  \* 6!n[4!n]2a[1!a]15d1!a3!c[16x][//16x][CRLF 34x]  (statement line; the library documents the first reference as optional)
+  FA("61", <<Sem("DATE", 6), Opt(<<Cl("n", 4, 4)>>), Code(Codes61DC), Opt(<<Cl("a", 1, 1)>>), Sem("AMT", 15),
+             Cl("a", 1, 1), Cl("c", 3, 3), Opt(<<[Cl("x", 1, 16) EXCEPT !.ch = "nodbl"]>>), Opt(<<Lit("/"), Lit("/"), Cl("x", 1, 16)>>),
+             Opt(<<NL, Cl("x", 1, 34)>>)>>),
   F("70",  <<Lines(1, 4, <<Cl("x", 1, 35)>>)>>),
   F("71A", <<Code(Codes71A)>>),
   F("71B", <<Lines(1, 6, <<Cl("x", 1, 35)>>)>>),
@@ -329,7 +336,7 @@ Formats == {
 }
 
 (* field types with formats the algebra does not express faithfully (listed as not covered):
-   23 (days allowed for one function only), 28D (index <= total), 50F (structured lines with codes), 61 (stacked optional parts), 77T (9000z) *)
+   23 (days allowed for one function only), 28D (index <= total), 50F (structured lines with codes), 77T (9000z) *)
 
 VARIABLES fld, content
 vars == <<fld, content>>
